@@ -941,6 +941,19 @@ func (x *Exec) evalSpecCall2(sc *specCtx, e *ast.CallExpr) Value {
 		need(3)
 		x.sym.declareFun("strsub", []Sort{SStr, SInt, SInt}, SStr)
 		return Scalar{mk(SStr, "strsub", argT(0), argT(1), argT(2)), types.Typ[types.String]}
+	case "ismethod":
+		// ismethod(f, recv, "name"): f is the method value recv.name (a bound method)
+		need(3)
+		fv, ok := arg(0).(FuncV)
+		lit, ok2 := e.Args[2].(*ast.BasicLit)
+		if !ok || !ok2 || fv.Fn == nil {
+			return Scalar{tFalse, boolT}
+		}
+		want, _ := strconv.Unquote(lit.Value)
+		if fv.Fn.Name() != want+"$bound" || len(fv.Bind) != 1 {
+			return Scalar{tFalse, boolT}
+		}
+		return Scalar{x.specEqual(fv.Bind[0], arg(1)), boolT}
 	case "captured":
 		// captured(f, T): the cell of the unique variable of type T captured by closure f
 		need(2)
